@@ -121,7 +121,7 @@ def stage_walk(ctx, st):
         if ctx.replay:
             env["VERIF_REPLAY"] = ctx.replay
         env.update(st.get("env", {}))
-        g = vlib.run_go_test(st["pkg"], "^" + st["test"] + "$", env, timeout=budget + 600, race=st.get("race", False))
+        g = vlib.run_go_test(st["pkg"], "^" + st["test"] + "$", env, timeout=budget + 600, harness_files=st["harness"], race=st.get("race", False))
         if not os.path.exists(out):
             raise CannotDecide(f"harness {st['pkg']}/{st['test']} produced no result (rc={g['rc']}):\n{g['out'][-4000:]}")
         with open(out) as fh:
